@@ -291,6 +291,78 @@ def assembleAgain (locPos : Nat → V3) (beams : List (Nat × Nat × Nat)) (us :
   let vpos := fun v => locPos (a.vlocs.getD v 0)
   { a with edges := reassembled vpos (allReqs beams a.rops) n }
 
+/-! ### entry points that put edge data on faces and operations
+
+`Face.__init__(points, edges)`, `Face.add_edge`, `Face.remove_edges` (through `add_edge`),
+`Operation.add_side_edge`, `Operation.from_series`.  `none` = the call raises. -/
+
+def fourLines : List Datum := [lineDatum, lineDatum, lineDatum, lineDatum]
+
+/-- `Face.add_edge(corner, edge_data)`: corner outside 0..3 raises; `None` puts a line -/
+def faceAddEdge (es : List Datum) (corner : Int) (d : Option Datum) : Option (List Datum) :=
+  if corner < 0 ∨ corner > 3 then none else some (es.set corner.toNat (d.getD lineDatum))
+
+/-- the `edges` argument of `Face.__init__`: absent → four lines; otherwise exactly four entries,
+    each handed to `add_edge(i, entry)` -/
+def faceInitEdges (edges : Option (List (Option Datum))) : Option (List Datum) :=
+  match edges with
+  | none => some fourLines
+  | some l =>
+      if l.length ≠ 4 then none
+      else l.zipIdx.foldlM (fun es x => faceAddEdge es (x.2 : Nat) x.1) fourLines
+
+/-- `Face.remove_edges(corners)` as it is now: `add_edge(corner, None)` for every listed corner
+    (`none` = no argument / `None` = all four), so a corner outside 0..3 raises -/
+def faceRemoveEdges (es : List Datum) (cs : Option (List Int)) : Option (List Datum) :=
+  (cs.getD [0, 1, 2, 3]).foldlM (fun es c => faceAddEdge es c none) es
+
+/-- `Operation.add_side_edge(corner_idx, edge_data)` -/
+def addSideEdge (side : List Datum) (i : Int) (d : Datum) : Option (List Datum) :=
+  if i < 0 ∨ i > 3 then none else some (side.set i.toNat d)
+
+/-- the 12 slot data of an operation under construction -/
+structure Build where
+  bottom : List Datum
+  top : List Datum
+  side : List Datum
+  deriving Repr, DecidableEq
+
+/-- a call the user makes on the operation's faces / on the operation -/
+inductive Call where
+  | addEdge (top : Bool) (corner : Int) (d : Option Datum)
+  | removeEdges (top : Bool) (cs : Option (List Int))
+  | addSide (i : Int) (d : Datum)
+  deriving Repr
+
+def Build.apply (b : Build) : Call → Option Build
+  | .addEdge false c d => (faceAddEdge b.bottom c d).map (fun es => { b with bottom := es })
+  | .addEdge true c d => (faceAddEdge b.top c d).map (fun es => { b with top := es })
+  | .removeEdges false cs => (faceRemoveEdges b.bottom cs).map (fun es => { b with bottom := es })
+  | .removeEdges true cs => (faceRemoveEdges b.top cs).map (fun es => { b with top := es })
+  | .addSide i d => (addSideEdge b.side i d).map (fun es => { b with side := es })
+
+def Build.run (b : Build) (calls : List Call) : Option Build := calls.foldlM Build.apply b
+
+/-- two faces made with the given `edges` arguments, a loft of them (`Operation.__init__`: four line
+    side edges), then the calls -/
+def buildOp (bi ti : Option (List (Option Datum))) (calls : List Call) : Option Build := do
+  let b ← faceInitEdges bi
+  let t ← faceInitEdges ti
+  Build.run { bottom := b, top := t, side := fourLines } calls
+
+/-- slot `s` (0-3 bottom, 4-7 top, 8-11 side) of a build -/
+def Build.slots (b : Build) : List Datum := b.bottom ++ b.top ++ b.side
+
+/-- side data `Operation.from_series` makes from the faces between the first and the last one
+    (`mids`: the four points of each, in order): nothing for none, an `Arc` through the one point,
+    a `Spline` through the points in the order of the faces, i.e. from the bottom to the top face -/
+def seriesSide (mids : List (List V3)) (tag0 : Nat) : List Datum :=
+  [0, 1, 2, 3].map (fun i =>
+    match mids with
+    | [] => lineDatum
+    | [m] => { kind := .arc, tag := tag0 + i, third := some (m.getD i V3.zero) }
+    | ms => { kind := .spline, tag := tag0 + i, pts := ms.map (fun m => m.getD i V3.zero) })
+
 /-! ### line protocol -/
 
 def parseV3s? (s : String) (sep : String) : Option (List V3) :=
@@ -410,11 +482,63 @@ def handleBeams (args : List String) : Option String :=
       | some bs => ";".intercalate (bs.map (fun x => s!"{x.1}:{x.2.1}:{x.2.2}")))
   | _ => none
 
+/-- `N` = no `edges` argument, `E` = an empty list, otherwise `;`-separated entries, `0` = `None` -/
+def parseInit? (s : String) : Option (Option (List (Option Datum))) :=
+  if s = "N" then some none
+  else if s = "E" then some (some [])
+  else ((s.splitOn ";").mapM (fun t => if t = "0" then some none else (parseDatum? t).map some)).map some
+
+def parseCorners? (s : String) : Option (Option (List Int)) :=
+  if s = "A" then some none
+  else if s = "E" then some (some [])
+  else ((s.splitOn ".").mapM String.toInt?).map some
+
+def parseCall? (s : String) : Option Call :=
+  match s.splitOn ":" with
+  | ["ae", f, c, d] => do
+      let top ← if f = "t" then some true else if f = "b" then some false else none
+      let c ← c.toInt?
+      let d ← if d = "0" then some none else (parseDatum? d).map some
+      some (.addEdge top c d)
+  | ["re", f, cs] => do
+      let top ← if f = "t" then some true else if f = "b" then some false else none
+      let cs ← parseCorners? cs
+      some (.removeEdges top cs)
+  | ["as", i, d] => do
+      let i ← i.toInt?
+      let d ← parseDatum? d
+      some (.addSide i d)
+  | _ => none
+
+/-- `c07.build <bottom edges> <top edges> <call+call+…|->` → kind:tag of the 12 slots, or `reject` -/
+def handleBuild (args : List String) : Option String :=
+  match args with
+  | [bi, ti, calls] => do
+      let bi ← parseInit? bi
+      let ti ← parseInit? ti
+      let cs ← if calls = "-" then some [] else (calls.splitOn "+").mapM parseCall?
+      some (match buildOp bi ti cs with
+        | none => "reject"
+        | some b => ";".intercalate (b.slots.map (fun d => s!"{d.kind.name}:{d.tag}")))
+  | _ => none
+
+/-- `c07.series <face|face|…>` (each mid face `p0;p1;p2;p3`, `-` for none) → the four side data -/
+def handleSeries (args : List String) : Option String :=
+  match args with
+  | [mids] => do
+      let ms ← if mids = "-" then some [] else (mids.splitOn "|").mapM (fun f => parseV3s? f ";")
+      if ms.any (fun m => m.length ≠ 4) then none else
+      some (";".intercalate ((seriesSide ms 1).map (fun d =>
+        s!"{d.kind.name}:{match d.third with | some p => p.toStr | none => "-"}:{showV3s d.pts}")))
+  | _ => none
+
 def handle (op : String) (args : List String) : Option String :=
   match op with
   | "c07.asm" => handleAsm args
   | "c07.face" => handleFace args
   | "c07.beams" => handleBeams args
+  | "c07.build" => handleBuild args
+  | "c07.series" => handleSeries args
   | _ => none
 
 end CBV.C07
